@@ -236,9 +236,7 @@ def project(resource, v):
             if old:
                 ss.pop('members', None)
                 ss.pop('lexfile', None)
-        if not old:
-            for fr in lex.get('frames', []):
-                fr.pop('senses', None)     # 1.1+ encodes the links as Sense@subcat
+        # (a lexicon-level frame of 1.1+ may carry an id, a senses list, or both: all of it is expressible there)
     return res
 
 
